@@ -6,21 +6,22 @@
 
    As in the other *ImplTrace modules every model action is a silent step, and a hook event pins its
    goroutine at the hook site: a goroutine standing on a hook that was not logged yet cannot move.
-   Goroutines: "sub:<s>" (the Subscribe call), "pump:<s>" (the forwarding goroutine), "closer".
+   Goroutines: "sub:<s>" (the Subscribe call), "pump:<s>" (the forwarding goroutine), "closer:<c>" (a Close call; up to two overlap).
    Harness events (environment actions are logged BEFORE they are made, observations AFTER):
      subcall s / subret s ok      Subscribe called / returned
      emit s                       the inner subscriber is about to hand the next message of s to the decorator
      recv s i                     the consumer of s received message i
      stopread s                   the consumer of s stops receiving, for good
      cancel s                     the context of s is about to be cancelled
-     closecall / closeret         Close
+     closecall c / closeret c     Close call c
      outclosed s                  the output channel of s was seen closed
      end                          everything has returned                                              *)
 EXTENDS SubDecorator, TraceBase
 
 VARIABLES site, allowed, reported, subcalled, closecalled
 tvars == <<vars, site, allowed, reported, subcalled, closecalled, l>>
-G == {"closer"} \cup {"sub:" \o s : s \in Subs} \cup {"pump:" \o s : s \in Subs}
+G == {"closer:" \o c : c \in Closers} \cup {"sub:" \o s : s \in Subs} \cup {"pump:" \o s : s \in Subs}
+CG(c) == "closer:" \o c
 Free(g) == site[g] = ""
 Put(g, p) == site' = [site EXCEPT ![g] = p]
 Keep == UNCHANGED <<allowed, reported, subcalled, closecalled>>
@@ -38,10 +39,11 @@ TSilent ==
           \/ Free(PG(s)) /\ (PumpSend(s) \/ PumpDrop(s, "closing") \/ PumpDrop(s, "ctx") \/ PumpSeesClosed(s)) /\ UNCHANGED site
           \/ Free(PG(s)) /\ PumpCloseOut(s) /\ Put(PG(s), "decorator.sub.closed")
           \/ Free(PG(s)) /\ PumpDone(s) /\ UNCHANGED site
-     \/ closecalled /\ Free("closer") /\ (ClStart \/ ClInnerStart \/ ClLock \/ ClUnlock) /\ UNCHANGED site
-     \/ Free("closer") /\ ClInnerDone /\ Put("closer", "decorator.close.inner_closed")
-     \/ Free("closer") /\ ClSignal /\ Put("closer", "decorator.close.signalled")
-     \/ Free("closer") /\ ClWait /\ Put("closer", "decorator.close.waited")
+     \/ \E c \in Closers :
+          \/ c \in closecalled /\ Free(CG(c)) /\ (ClStart(c) \/ ClInnerStart(c) \/ ClLock(c) \/ ClUnlock(c)) /\ UNCHANGED site
+          \/ Free(CG(c)) /\ ClInnerDone(c) /\ Put(CG(c), "decorator.close.inner_closed")
+          \/ Free(CG(c)) /\ ClSignal(c) /\ Put(CG(c), "decorator.close.signalled")
+          \/ Free(CG(c)) /\ ClWait(c) /\ Put(CG(c), "decorator.close.waited")
   /\ Keep /\ UNCHANGED l
 
 THook == /\ Is("hook") /\ Ev.g \in G /\ site[Ev.g] = Ev.point /\ Put(Ev.g, "") /\ UNCHANGED vars /\ Keep /\ Adv
@@ -54,21 +56,24 @@ TRecv == /\ Is("recv") /\ reported[Ev.s] < Len(got[Ev.s]) /\ got[Ev.s][reported[
 \* the consumer has taken everything that was sent to it before it stops
 TStopRead == /\ Is("stopread") /\ reported[Ev.s] = Len(got[Ev.s]) /\ StopReading(Ev.s) /\ UNCHANGED site /\ Keep /\ Adv
 TCancel == Is("cancel") /\ CtxCancel(Ev.s) /\ UNCHANGED site /\ Keep /\ Adv
-TCloseCall == Is("closecall") /\ closecalled' = TRUE /\ UNCHANGED <<vars, site, allowed, reported, subcalled>> /\ Adv
-TCloseRet == Is("closeret") /\ cl = "done" /\ Free("closer") /\ UNCHANGED <<vars, site>> /\ Keep /\ Adv
+TCloseCall == Is("closecall") /\ Ev.c \in Closers /\ closecalled' = closecalled \cup {Ev.c} /\ UNCHANGED <<vars, site, allowed, reported, subcalled>> /\ Adv
+\* when a Close call has returned, the forwarding goroutines it had to wait for are gone and their output channels closed (CloseComplete)
+TCloseRet == /\ Is("closeret") /\ cl[Ev.c] = "done" /\ Free(CG(Ev.c))
+             /\ \A s \in counted[Ev.c] : pump[s] = "done" /\ outCh[s] = "closed"
+             /\ UNCHANGED <<vars, site>> /\ Keep /\ Adv
 TOutClosed == Is("outclosed") /\ outCh[Ev.s] = "closed" /\ reported[Ev.s] = Len(got[Ev.s]) /\ UNCHANGED <<vars, site>> /\ Keep /\ Adv
 TEnd == Is("end") /\ (\A g \in G : Free(g)) /\ (\A s \in Subs : reported[s] = Len(got[s])) /\ UNCHANGED <<vars, site>> /\ Keep /\ Adv
 
 TInit == /\ Init /\ site = [g \in G |-> ""] /\ allowed = [s \in Subs |-> 0] /\ reported = [s \in Subs |-> 0]
-         /\ subcalled = {} /\ closecalled = FALSE /\ LInit
+         /\ subcalled = {} /\ closecalled = {} /\ LInit
 TReset == /\ Is("reset")
           /\ sub' = [s \in Subs |-> "none"] /\ inCh' = [s \in Subs |-> "none"] /\ left' = [s \in Subs |-> K]
           /\ pump' = [s \in Subs |-> "off"] /\ held' = [s \in Subs |-> 0] /\ outCh' = [s \in Subs |-> "open"]
           /\ got' = [s \in Subs |-> << >>] /\ drops' = [s \in Subs |-> {}] /\ reading' = [s \in Subs |-> TRUE]
           /\ ctxDone' = [s \in Subs |-> FALSE] /\ lastCtx' = None /\ closing' = FALSE /\ wg' = 0 /\ wgLock' = None
-          /\ cl' = "idle" /\ innerClosing' = FALSE /\ innerClosed' = FALSE /\ counted' = {}
+          /\ cl' = [c \in Closers |-> "idle"] /\ innerClosing' = FALSE /\ innerClosed' = FALSE /\ counted' = [c \in Closers |-> {}]
           /\ site' = [g \in G |-> ""] /\ allowed' = [s \in Subs |-> 0] /\ reported' = [s \in Subs |-> 0]
-          /\ subcalled' = {} /\ closecalled' = FALSE /\ Adv
+          /\ subcalled' = {} /\ closecalled' = {} /\ Adv
 TNext == TReset \/ THook \/ TSubCall \/ TSubRet \/ TEmit \/ TRecv \/ TStopRead \/ TCancel \/ TCloseCall \/ TCloseRet \/ TOutClosed \/ TEnd \/ TSilent
 TSpec == TInit /\ [][TNext]_tvars
 =============================================================================
